@@ -900,9 +900,28 @@ fn exec_engine(case: &ConcCase, out: &mut ConcOutcome, log: &mut Vec<u8>) -> Res
         let checks = vec![true; n];
         let lr = linearize(&init, &out.history, &optional, Some(&fin), &checks);
         out.linearizations_tried = lr.tried;
-        out.final_obs = Some(fin);
+        out.final_obs = Some(fin.clone());
         if !lr.ok {
             return Err(fail("not_linearizable", lr.why));
+        }
+        if case.crash.is_none() {
+            // a clean restart reproduces the state the engine was serving after the concurrent phase
+            // (facts, rule names and clause counts, schemas): nothing a racing operation wrote behind
+            // the back of the live state may surface later
+            drop(engine);
+            out.restarts += 1;
+            let engine = StorageEngine::new(make_config(&case.cfg)).map_err(|e| fail("post:reopen_failed", e.to_string()))?;
+            let after = observe(&engine).map_err(|d| fail("observe_failed", d))?;
+            if let Some(d) = after.diff_facts(&fin) {
+                return Err(fail("post:restart_differs_facts", d));
+            }
+            if let Some(d) = after.diff_rules(&fin) {
+                return Err(fail("post:restart_differs_rules", d));
+            }
+            if after.kgs.iter().any(|(k, ko)| fin.kgs.get(k).is_some_and(|b| b.schemas != ko.schemas)) {
+                return Err(fail("post:restart_differs_schemas", format!("{:?}", after.kgs.iter().map(|(k, v)| (k, &v.schemas)).collect::<Vec<_>>())));
+            }
+            return Ok(());
         }
     }
     let Some(cp) = &case.crash else { return Ok(()) };
